@@ -155,12 +155,14 @@ func (b *Builder) Build() (Environment, error) {
 	root := b.Root
 	if b.TmpRoot != "" {
 		if root, err = os.MkdirTemp(b.Root, b.TmpRoot); err != nil {
+			c.Destroy()
 			return nil, fmt.Errorf("container: failed to make tmp container root at %s: %w", b.Root, err)
 		}
 		defer os.Remove(root)
 	}
 	if root == "" {
 		if root, err = os.Getwd(); err != nil {
+			c.Destroy()
 			return nil, fmt.Errorf("container: failed to get work directory: %w", err)
 		}
 	}
